@@ -13,11 +13,16 @@ Definition uid_now (j : amap) : option bytes := uid_in j.
 Definition used_here (cfg : config) (w : world) (a : action) (i : iobs) : list (bytes * bytes) :=
   match a with
   | AReq r =>
-      let before := uid_in (sess_of w (q_browser r)) in
+      let before := uid_before cfg w r i in
       let after := uid_in (io_sess i) in
       (match q_route r, parked_here (sess_of w (q_browser r)) (io_sess i) with
        | ROtpLogin, Some U => [(U, aget f_password (values_of cfg r))]
        | _, _ => []
+       end) ++
+      (* the global remember wrapper consumed a cookie on a module route *)
+      (match uid_in (sess_of w (q_browser r)), uid_before cfg w r i, alookup k_rm (cook_of w (q_browser r)) with
+       | None, Some U, Some c => [(U, c)]
+       | _, _, _ => []
        end) ++
       if obytes_eq before after then [] else
       match after with
@@ -58,7 +63,7 @@ Fixpoint check_steps (n : Z) (g : ghost) (w : world) (l : list (action * oracle 
   match l with
   | [] => []
   | (a, orc, i) :: r =>
-      let '(w', o) := step XC cfg w a orc in
+      let '(w', o) := wstep XC cfg w a orc in
       let viol := map (fun c => (n, c)) (pred cfg g w a orc w' i) in
       match compare_step a w' o i with
       | [] => viol ++ check_steps (n + 1) (ghost_step cfg g w a i) w' r
